@@ -71,19 +71,27 @@ PROPS['C07'] = {
 }
 
 PROPS['C01'] = {
-    'contracts': ['contracts.fcsio:DataSegment'],
+    'contracts': ['contracts.fcsio:DataSegment', 'contracts.fcsio_mixed:DataSegmentMixed'],
     'bounded': True,
     'level': 'other',
     'explanation': 'Proved (unbounded N, D, offsets, file content): read_fcs_data_segment for uniform integer widths 8/16/32/64 and '
                    'F/D floats: size guard (last byte / one past), every value equals the bytes at offset begin+(i*D+j)*B in the declared '
                    'byte order, range mask loop (invariant) reduces to the low ceil(log2 R) bits, result shape (N, D); unsupported layouts '
-                   '(ASCII, non-byte-aligned, >64 bit, wrong float width, unknown datatype) refused. FCSFile.__init__ glue: see FileInit. '
-                   'Mixed integer widths (per-byte accumulation loops with run-time dtype) are outside the prover: bounded stand-in only.',
-    'level_note': 'A-IO (memmap/read), A-INT, A-REAL(ceil, log2); mixed-width integer decoding is bounded only.',
+                   '(ASCII, non-byte-aligned, >64 bit, wrong float width, unknown datatype) refused. Generic decoder for odd / mixed '
+                   'widths (per-byte accumulation loops, run-time upcast dtype): BOUNDED-SYMBOLIC contract DataSegmentMixed -- D = 1, 2 '
+                   '(every width tuple over {8,...,64} that does not take the fast path) and six 3-parameter tuples, with N, offsets, '
+                   'file bytes, byte order and ranges symbolic: every value equals the w-bit integer at row stride sum(B), column offset '
+                   'sum(B before it), declared byte order, low bits of the range; same size guard. Bounded in D, never counted as '
+                   'proved. FCSFile.__init__ glue (keywords -> arguments, HEADER/TEXT offsets): bounded stand-in (whole files written '
+                   'by an independent generator).',
+    'level_note': 'A-IO (memmap/read), A-INT, A-REAL(ceil, log2); the generic decoder is bounded in the number of parameters (D <= 3), '
+                  'whole-file loading is bounded.',
+    'technique': 'contract-based deductive verification of the real read_fcs_data_segment body (uniform widths and floats: unbounded; '
+                 'generic decoder: symbolic execution bounded in the number of parameters) + bounded check of whole-file loading',
 }
 
 PROPS['C16'] = {
-    'contracts': ['contracts.fcsio:DataSegment'],
+    'contracts': ['contracts.fcsio:DataSegment', 'contracts.fcsio_mixed:DataSegmentMixed'],
     'bounded': True,
     'level': 'other',
     'explanation': 'Proved (unbounded): a normal return of read_fcs_data_segment implies N*rowbytes in {declared extent, extent-1} AND '
@@ -203,7 +211,12 @@ PROPS['C10'] = {
                    'cell contents: the sample stored for a healthy row is exactly the term density2d(high_low?(start_end(U2(U1(to_rfi(load, '
                    '[FSC,SSC]))), 250, 100), [FSC,SSC]+reported), [FSC,SSC], fraction) with U = identity for channel, to_rfi for rfi/a.u./au, '
                    'bead transform after to_rfi for mef (case-insensitive, stripped), channels without units skipped, high_low iff integer '
-                   'data, reported channels in instrument order. ' + _EXCEL_NOTE,
+                   'data, reported channels in instrument order. Beads table (ProcessBeads), arbitrary row: the gated beads sample is '
+                   'the documented composition and the calibration is exactly one get_transform_fxn call with this row\'s sample, the '
+                   'values parsed from this row\'s MEF cells (element j = int(piece j) or NaN), the channels that have values in '
+                   'instrument order and this row\'s clustering channels. Histogram sheet (GenerateHistograms), arbitrary row: bin '
+                   'centres and np.histogram counts of each reported channel come from ONE hist_bins(channel, 2*min(resolution, '
+                   'max_bins), linear iff units are Channel) call on the row\'s own sample. ' + _EXCEL_NOTE,
     'level_note': _EXCEL_NOTE,
 }
 PROPS['C11'] = {
@@ -215,7 +228,10 @@ PROPS['C11'] = {
                    'units, calibration missing for the beads or the channel, beads on another instrument / other amplifier type / other '
                    'detector voltage, gate fraction outside [0,1]) and as the documented sample otherwise; the entry is stored under the '
                    'row identifier; what is stored depends only on the row, the instrument/beads tables and the bead transforms (the prior '
-                   'state is arbitrary); an empty table gives an empty result. ' + _EXCEL_NOTE,
+                   'state is arbitrary); an empty table gives an empty result. The same for the beads table (ProcessBeads): a row '
+                   'with a documented fault (file not found, fewer than 400 events, gate fraction outside [0,1], unequal numbers of MEF '
+                   'values across channels) stores (the exception, None[, None]), nothing escapes, everything else stores the '
+                   'documented results under the row identifier. ' + _EXCEL_NOTE,
     'level_note': _EXCEL_NOTE,
 }
 
